@@ -64,7 +64,7 @@ func (k *worker) runVeto(v engine.Vec) engine.Result {
 	var res engine.Result
 	if pan := engine.Bubble(k.t, caseAt, func() {
 		r := k.rigs[in.caps]
-		r.Core.Cfg.Exchange = in.policy
+		configure(r, in, judge(in))
 		r.Core.Reset(k.w.st.Clone())
 		base := k.request(r, in)
 		journal := r.Core.JournalCopy()
